@@ -230,3 +230,61 @@ package tax
 //@   loop 1 invariant t.Sum == old(foldCats(t.Categories, idx, zero, rr)) && t.Categories == old(t.Categories) && zero == old(zero)
 //@   loop 1 invariant forall i int :: 0 <= i && i < idx ==> t.Categories[i].Amount == old(foldRows(t.Categories[i].Rates, len(t.Categories[i].Rates), zero, rr))
 //@   loop 1 invariant forall i int :: 0 <= i && i < len(t.Categories) ==> t.Categories[i].Surcharge == nil
+//
+// ---- C02 / C03 / C17: find-or-create of the rate group, accumulation of the bases
+//
+// every row of t has its base at precision e
+//@ pred basesAt(t *Total, e int) bool = forall i int, j int :: 0 <= i && i < len(t.Categories) && 0 <= j && j < len(t.Categories[i].Rates) ==> t.Categories[i].Rates[j].Base.exp == e
+//@ pred rowOf(t *Total, r *RateTotal, code cbc.Code) bool = exists i int, j int :: 0 <= i && i < len(t.Categories) && 0 <= j && j < len(t.Categories[i].Rates) && t.Categories[i].Code == code && t.Categories[i].Rates[j] == r
+//
+// the row returned belongs to the combo's category and rate group (so a combo contributes to
+// one group of its category); a new row starts from zero, an existing one keeps its base
+//@ func (t *Total) rateTotalFor(c, zero) (r)
+//@   requires t != nil && c != nil && wfTotal(t)
+//@   modifies Total.Categories, CategoryTotal.Rates, elem(*CategoryTotal), elem(*RateTotal)
+//@   ensures [row] r != nil && class(r, c)
+//@   ensures [member] rowOf(t, r, c.Category)
+//@   ensures [new] fresh(r) ==> r.Base == zero
+//@   ensures [wf] wfTotal(t)
+//@   ensures [precision] old(basesAt(t, zero.exp)) ==> basesAt(t, zero.exp)
+//@   loop 1 invariant forall j int :: 0 <= j && j < idx ==> t.Categories[j].Code != c.Category
+//@   loop 2 invariant forall j int :: 0 <= j && j < idx ==> !class(catTotal.Rates[j], c)
+//
+// accumulation of the bases: under the precise rule the accumulator is raised to the line's
+// precision before adding (nothing is rounded away, so the sum is exact and order-independent);
+// under the currency rule it stays at the currency's precision (every line is rounded first,
+// so the presented bases re-add).
+//@ pred taxLinesOK(ls []*taxLine) bool = forall i int :: 0 <= i && i < len(ls) ==> ls[i] != nil && (forall j int :: 0 <= j && j < len(ls[i].taxes) ==> ls[i].taxes[j] != nil)
+//@ func (tc *TotalCalculator) calculateBaseRateTotals(taxLines, t) ()
+//@   requires tc != nil && t != nil && wfTotal(t) && taxLinesOK(taxLines)
+//@   requires [reset] basesAt(t, tc.zero.exp)
+//@   modifies Total.Categories, CategoryTotal.Rates, elem(*CategoryTotal), elem(*RateTotal), RateTotal.Base
+//@   at-call Add assert [noloss] tc.Rounding != "currency" ==> $arg0.exp >= $arg1.exp
+//@   at-call Add assert [currency] tc.Rounding == "currency" ==> $arg0.exp == tc.zero.exp
+//@   ensures [wf] wfTotal(t)
+//@   ensures [precision] tc.Rounding == "currency" ==> basesAt(t, tc.zero.exp)
+//@   loop 1 invariant wfTotal(t) && (tc.Rounding == "currency" ==> basesAt(t, tc.zero.exp))
+//@   loop 2 invariant wfTotal(t) && (tc.Rounding == "currency" ==> basesAt(t, tc.zero.exp))
+//
+// ---- C15: a scenario summary never hands out a registered scenario's own maps
+//
+// whether a scenario applies to a document is a read-only question (interface getters of the
+// document, the scenario's filter function): assumed not to write (A-MATCH)
+//@ func (s *Scenario) match(doc) (r)
+//@   trusted A-MATCH: Scenario.match only reads (document getters and the scenario's Filter are outside the subset)
+//
+//@ func (ss *ScenarioSummary) addNote(note) ()
+//@   requires ss != nil && note != nil && (forall i int :: 0 <= i && i < len(ss.Notes) ==> ss.Notes[i] != nil)
+//@   modifies ScenarioSummary.Notes, elem(*ScenarioNote)
+//@   footprint ss, ss.Notes
+//@   ensures [notes] forall i int :: 0 <= i && i < len(ss.Notes) ==> ss.Notes[i] != nil
+//@   ensures [same] ss.Ext == old(ss.Ext) && ss.Codes == old(ss.Codes)
+//@   ensures [array] arr(ss.Notes) == old(arr(ss.Notes)) || fresh(ss.Notes)
+//@   loop 1 invariant ss.Notes == old(ss.Notes) && (forall i int :: 0 <= i && i < len(ss.Notes) ==> ss.Notes[i] != nil)
+//
+//@ func (ss *ScenarioSet) SummaryFor(doc) (r)
+//@   requires ss != nil && (forall i int :: 0 <= i && i < len(ss.List) ==> ss.List[i] != nil)
+//@   ensures [fresh] r != nil && fresh(r) && r.Ext != nil && fresh(r.Ext) && r.Codes != nil && fresh(r.Codes)
+//@   loop 1 invariant summary != nil && fresh(summary) && summary.Ext != nil && fresh(summary.Ext) && summary.Codes != nil && fresh(summary.Codes) && (forall i int :: 0 <= i && i < len(summary.Notes) ==> summary.Notes[i] != nil) && fresh(summary.Notes)
+//@   loop 2 invariant summary != nil && fresh(summary) && summary.Ext != nil && fresh(summary.Ext) && summary.Codes != nil && fresh(summary.Codes) && (forall i int :: 0 <= i && i < len(summary.Notes) ==> summary.Notes[i] != nil) && fresh(summary.Notes)
+//@   loop 3 invariant summary != nil && fresh(summary) && summary.Ext != nil && fresh(summary.Ext) && summary.Codes != nil && fresh(summary.Codes) && (forall i int :: 0 <= i && i < len(summary.Notes) ==> summary.Notes[i] != nil) && fresh(summary.Notes)
